@@ -313,11 +313,8 @@ def global_rules(sm, rep, tier):
     for nm, d in zip([x.arg for x in a.args][len(a.args) - len(a.defaults):], a.defaults):
         if isinstance(d, ast.Constant):
             env[nm] = Fraction(repr(d.value))
-    ret = [st.value for st in fs.node.body if isinstance(st, ast.Return)]
-    if len(ret) != 1:
-        raise AnalysisError("_fsign: expected a single return")
     try:
-        g = P.pw_from_ast(ret[0], env, var)
+        g = P.pw_from_ast(P.inlined_return(fs.node), env, var)
         zeros = []
         for lo, hi, p in g.intervals():
             if not p.n:
@@ -349,7 +346,7 @@ def global_rules(sm, rep, tier):
         big = g.at(5)
         rep.ob('F8', 'advection._fsign/identity', big == 5 and g.at(-5) == -5, f"_fsign(5)={big}, _fsign(-5)={g.at(-5)}", fs.loc())
     except (AnalysisError, DivZero) as e:
-        rep.ob('F8', 'advection._fsign', False, f"not analysable: {e}", fs.loc())
+        raise AnalysisError(f"_fsign is not analysable as a piecewise rational function of its argument: {e}")
     # F8 divisions in the TVD builders
     mod = sm.module('advection')
     ntvd = 0
